@@ -199,9 +199,12 @@ PROPS = {
         "bins": ["e2e"],
         "rule": "e2e `accept.pace`: real client opens n_uni x n_bi in {0,1,50,100,250,(400)} streams with distinct payloads; "
                 "the real server accepts with 1..8 tasks per kind, delays 0..5 ms, and (cancel=1) accept futures raced "
-                "against random sleeps, dropped and re-issued; counts distinct / duplicate / unknown payloads; "
+                "against random sleeps, dropped and re-issued; counts distinct / duplicate / unknown payloads; abandoned "
+                "openings between the session's streams; e2e `late.preamble`: a uni and a bidi stream whose preamble is "
+                "completed 1 s / 6.5 s (thorough: up to 21 s) after the stream became visible, next to healthy ones; "
                 "non-trivial = distinct line with at least one stream",
-        "extracted_keys": ["CAP_READY_UNI_WT", "CAP_READY_BI_WT", "HANDOFF_RESERVE_FIRST_UNI", "HANDOFF_RESERVE_FIRST_BI"],
+        "extracted_keys": ["CAP_READY_UNI_WT", "CAP_READY_BI_WT", "HANDOFF_RESERVE_FIRST_UNI", "HANDOFF_RESERVE_FIRST_BI",
+                           "DRIVER_TIMER_FREE", "DRIVER_TIMER_HITS"],
         "trusted": ["tokio mpsc Receiver::recv and quinn accept_* are cancel-safe (documented): an accept future dropped "
                     "before completion has taken nothing"],
         "assumptions": ["the peer does not exceed quinn's concurrent-stream limits (it cannot: QUIC enforces them)"],
